@@ -174,6 +174,7 @@ def run_corrupt(case, R):
             lost = []
             conn._connection_lost = lambda exc: lost.append(exc)
             p = SecureHomeKitProtocol(conn, A2C, C2A)
+            conn.protocol = p          # this protocol is the connection's current one
             t = FakeTransport(loop, FakeSocket(None, "10.0.0.1", 1), p)
             p.connection_made(t)
             pending = _Fut(log)
